@@ -44,7 +44,7 @@ def main():
             for part in o.function.replace(' / ', '.').split('.'):
                 fns.add((o.module, part.strip()))
         for (module, fn) in sorted(fns):
-            if not module.endswith('.py') or not fn.isidentifier():
+            if not module.endswith('.py') or not fn.isidentifier() or not os.path.exists(os.path.join(root, module)):
                 continue
             jobs.append((pid, root, module, fn, base))
     with Pool(16) as pool:
